@@ -1,7 +1,6 @@
 (* C02: the theorems of DESIGN.md, stated for the configuration FileList::initialize + split
    builds from an arbitrary layout (mk_cfg cs lay) and for arbitrary operation lists. *)
 From Coq Require Import List NArith ZArith Bool Lia ZifyBool ZifyNat ZifyN.
-From LTV Require Import Params_gen.
 From LTV.C02 Require Import Model ProofsA ProofsB.
 Import ListNotations.
 Local Open Scope N_scope.
@@ -18,12 +17,23 @@ Arguments N.of_nat : simpl never.
 Definition cfg_ok (cs : N) (lay : list (N * bool)) : Prop :=
   0 < cs /\ cs < two32 /\ 0 < total lay /\ total lay <= two60 /\ ceil_div (total lay) cs < two32.
 
-Definition params_ok : bool :=
-  (2 ^ Params.c02_left_bytes_limit_shift =? two60) &&
-  (Params.c02_loader_piece_length_max <? two32) && (0 <? Params.c02_loader_piece_length_min_excl) &&
-  (Params.c02_flag_attr_padding_shift =? 7).
+(* today's constants satisfy the side condition; the same boolean is evaluated at run time on the
+   values probed from the compiled implementation *)
+Definition params_ok : bool := probed_ok default_probed.
 Lemma params_ok_now : params_ok = true.
 Proof. vm_compute. reflexivity. Qed.
+
+(* what the side condition buys: every piece length the loader accepts is a legal cs of cfg_ok, and
+   left_bytes' sanity bound is not below the 2^60 the theorems assume *)
+Lemma probed_ok_sound : forall p, probed_ok p = true ->
+  two60 <= 2 ^ pr_left_shift p /\
+  forall cs, pr_pl_min_excl p < cs -> cs <= pr_pl_max p -> 0 < cs /\ cs < two32.
+Proof.
+  intros p H. unfold probed_ok in H. rewrite andb_true_iff, N.leb_le, N.ltb_lt in H. destruct H as [H1 H2].
+  split.
+  - unfold two60. change 1152921504606846976 with (2 ^ 60). apply N.pow_le_mono_r; lia.
+  - intros cs Ha Hb. lia.
+Qed.
 
 Lemma cfg_laid : forall cs lay, laid 0 (c_files (mk_cfg cs lay)) (c_tot (mk_cfg cs lay)).
 Proof. intros. simpl. apply (split_laid cs lay 0). Qed.
